@@ -134,11 +134,13 @@ theorem C15_cfloat_wide_source_counterexample :
     satisfies c2 (C03_cfloat_expect (cfVal c1 0x3fff9000000000000801)) 0x3d = true := by
   decide +kernel
 
-/-- es ≥ 12 sources: 2^-1026 is a (subnormal) double and a value of cfloat<64,11>, but ipow(-1026) = 1.0/inf = 0
-    (witness `convcf 80 15 100 64 11 100 u32 c2c 3bfd0000000000000000 => 0`) -/
-theorem C15_cfloat_ipow_underflow_counterexample :
+/-- es ≥ 12 sources after the repair "ipow() must not underflow to 0 …": 2^-1026 is a (subnormal) double and a value
+    of cfloat<64,11>; ipow(-1026) is now exact and the former witness converts to 0x1000000000000 = 2^-1026
+    (`convcf 80 15 100 64 11 100 u32 c2c 3bfd0000000000000000` gave 0), as does the smallest subnormal double 2^-1074 -/
+theorem C15_cfloat_ipow_subnormal_cfg :
     let c1 : Cfg := { nbits := 80, es := 15, bt := 32, sub := true }
     let c2 : Cfg := { nbits := 64, es := 11, bt := 32, sub := true }
     cfVal c1 0x3bfd0000000000000000 = .fin false (pow2 (-1026)) ∧
-    cf2cf c1 c2 0x3bfd0000000000000000 = 0 ∧ cfVal c2 0x1000000000000 = .fin false (pow2 (-1026)) := by
+    cf2cf c1 c2 0x3bfd0000000000000000 = 0x1000000000000 ∧ cfVal c2 0x1000000000000 = .fin false (pow2 (-1026)) ∧
+    cf2cf c1 c2 0x3bcd0000000000000000 = 1 ∧ cfVal c2 1 = .fin false (pow2 (-1074)) := by
   decide +kernel
